@@ -1,4 +1,1938 @@
 package main
 
-// genEvalCtx: placeholder until the translation of this part of the library is written (an empty generated file).
-func genEvalCtx() string { return "" }
+// Translation of the evaluation context and of the function package into Gallina (coq/Gen/GenEvalCtx.v, tie T1 for
+// C07 / C10):
+//   config/eval/context.go: ArgCount.String, NewDefaultCtx, Context.GetFunc, Context.setFunc, Context.SetFunc
+//     (Context.String ranges over maps in the runtime's order and is not a function of the context: not translated);
+//   config/eval/config.go: NewConfig, EvalContext;
+//   function/string.go, int.go, float.go, bool.go: the functions that are not integer / boolean arithmetic already in
+//     GenFuncs.v (nilSafe, UpperS, LowerS, StrS, LenS, ConcatS, StrI, FloatI, StrF, IntF, StrB); the others are
+//     variables of the generated section, typed by their Go signature.
+// coq/Proofs/GenEvalCtxProofs.v proves the generated definitions equal to the hand-written model (Model/Eval.v ctx /
+// get_func) through an explicit representation relation, coq/Properties/T1EvalCtx.v registers T1_evalctx_<name>.
+//
+// THE SCHEME (anything that does not fit is reported through problem(...); main.go then answers with the whole golden
+// copy of the file, so that the development still builds — the exit status says the tie is broken).
+//
+//	integers    int and the named byte types (ArgCount, types.FunctionType) -> Z; their constants are evaluated from
+//	            the const blocks (iota) into Definitions gct_<Name> / gct_types_<Name>.  A byte variable can hold any
+//	            value: GetFunc's "else" branch answers every ArgCount other than ArgCountOne, as in the source.
+//	float64     -> the abstract type F64; int(x) / float64(x) -> the variables f64_to_int / int_to_f64;
+//	            fmt.Sprintf("%f", x) -> fmt_Sprintf_f x.
+//	strings     string -> bytes; *string -> option bytes (nil = None); &x -> Some x; *p -> gct_deref p (Panic for
+//	            nil); len(s) -> length; s + t -> s ++ t.
+//	maps        map[K]V -> gct_map K V = option (list (K * V)): None is the nil map (reads answer the zero value,
+//	            a store panics), Some l an association list without meaning of its order for reads (first match);
+//	            a map literal -> Some [..] (a constant key twice is rejected); v, ok := m[k] -> gct_mget; m[k] ->
+//	            fst of it.  Maps are reference values in Go: the translation keeps every map in exactly ONE place
+//	            (inside the Context value; a map is never copied into a second variable or field — anything else is
+//	            rejected), so the store  root.f[k1].g[k2] = v  is the functional update of that path: the new inner
+//	            map is written back along the path (gct_mset at every map step, a rebuilt record at every field
+//	            step) and the root variable is rebound.  A store through a missing outer key reads the zero struct,
+//	            whose maps are nil: Panic, as in Go.
+//	structs     type T struct -> Record gct_T (constructor gct_mk_T, projections gct_T_<field>); *T -> option gct_T
+//	            (nil = None), p.f -> gct_deref p first (Panic for nil), &T{..} -> Some.  A method with a pointer
+//	            receiver that stores (directly or through a callee) answers the new receiver as its first result.
+//	interface{} -> Inductive gct_dyn: gct_dyn_nil, one constructor gct_dyn_func_<params>_to_<result> for every
+//	            function type that the type switch of SetFunc names or that a function stored by NewDefaultCtx has
+//	            (discovered; same names as the constructors of gap_dyn in GenColApply.v), gct_dyn_other for every
+//	            other dynamic type.  A function value func(A) B is A -> outcome B.  switch x.(type) without binding
+//	            -> match with or-patterns for a clause that lists several types.
+//	errors      error -> option E; qerrors.New(op, format, args..) -> Some (err_New op format) (the arguments must be
+//	            variables or reflect.TypeOf of a variable: total, dropped), qerrors.Propagate(op, err) -> Some
+//	            (err_Propagate op err), qfstrings.CheckName -> the variable strings_CheckName (translated on its own
+//	            in GenFuncs.v).
+//	functions   a stored function function.X / math.Abs -> the translated gct_function_X where this file translates
+//	            it, else the section variable function_X / math_Abs of the type of its Go signature.
+//	closures    a function whose body is `return func(..) {..}` -> a Definition answering the fun directly (making
+//	            a closure cannot fail); func(c *T) with stores into c -> gct_T -> outcome gct_T (the in/out reading of
+//	            a pointer that is never nil: the only call site is f(&result)).
+//	results     every function answers outcome T (Panic = Go panic).  NO fuel: the one loop ranges over a slice.
+//	statements  x := e; var x T; a, b = e1, e2; v, ok = m[k]; path = e; if (with init) / else; switch on a value
+//	            with constant cases; switch x.(type); for _, f := range s { f(&v) }; a call statement of a storing
+//	            method; return.  The continuation of an if / switch is repeated in every branch.
+//	rejected    everything else.
+
+import (
+	"fmt"
+	"go/ast"
+	"go/token"
+	"strconv"
+	"strings"
+)
+
+type gctT struct {
+	k      string // Z f64 bool string pstr dyn err map struct ptr func slice statefn bad
+	name   string
+	key    *gctT
+	elem   *gctT
+	params []*gctT
+	result *gctT
+}
+
+var gctBad = &gctT{k: "bad"}
+var gctZ = &gctT{k: "Z"}
+var gctBool = &gctT{k: "bool"}
+var gctString = &gctT{k: "string"}
+var gctPstr = &gctT{k: "pstr"}
+var gctDyn = &gctT{k: "dyn"}
+var gctErr = &gctT{k: "err"}
+var gctF64 = &gctT{k: "f64"}
+
+func (t *gctT) coq() string {
+	switch t.k {
+	case "Z":
+		return "Z"
+	case "f64":
+		return "F64"
+	case "bool":
+		return "bool"
+	case "string":
+		return "bytes"
+	case "pstr":
+		return "(option bytes)"
+	case "dyn":
+		return "gct_dyn"
+	case "err":
+		return "(option E)"
+	case "map":
+		return "(gct_map " + t.key.coq() + " " + t.elem.coq() + ")"
+	case "struct":
+		return "gct_" + t.name
+	case "ptr":
+		return "(option gct_" + t.elem.name + ")"
+	case "slice":
+		return "(list " + t.elem.coq() + ")"
+	case "statefn":
+		return "(gct_" + t.elem.name + " -> outcome gct_" + t.elem.name + ")"
+	case "func":
+		s := ""
+		for _, p := range t.params {
+			s += p.coq() + " -> "
+		}
+		if t.result == nil {
+			return "(" + s + "outcome unit)"
+		}
+		return "(" + s + "outcome " + t.result.coq() + ")"
+	}
+	return "BAD"
+}
+
+func (t *gctT) short() string {
+	switch t.k {
+	case "Z":
+		return "int"
+	case "f64":
+		return "float64"
+	case "bool":
+		return "bool"
+	case "string":
+		return "string"
+	case "pstr":
+		return "ptr_string"
+	}
+	return "X"
+}
+
+func (t *gctT) same(u *gctT) bool {
+	if t.k != u.k || t.name != u.name {
+		return false
+	}
+	switch t.k {
+	case "map":
+		return t.key.same(u.key) && t.elem.same(u.elem)
+	case "ptr", "slice", "statefn":
+		return t.elem.same(u.elem)
+	case "func":
+		if len(t.params) != len(u.params) || (t.result == nil) != (u.result == nil) {
+			return false
+		}
+		for i := range t.params {
+			if !t.params[i].same(u.params[i]) {
+				return false
+			}
+		}
+		return t.result == nil || t.result.same(u.result)
+	}
+	return true
+}
+
+type gctField struct {
+	name string
+	ty   *gctT
+}
+
+type gctStruct struct {
+	name   string
+	fields []gctField
+	src    string
+}
+
+type gctVar struct {
+	name string
+	ty   *gctT
+}
+
+type gctFn struct {
+	pkg      string // eval or function
+	key      string // Receiver.Name
+	coq      string
+	fd       *ast.FuncDecl
+	recv     *gctVar
+	params   []gctVar
+	results  []*gctT
+	mutates  bool
+	pureFun  bool // body is `return func..`: answers the fun itself
+	funcType *gctT
+}
+
+type gctState struct {
+	structs  map[string]*gctStruct
+	sorder   []string
+	named    map[string]*gctT // named types of package eval
+	fns      map[string]*gctFn
+	dyns     []string          // constructor names in order of discovery
+	dynTy    map[string]*gctT  // constructor -> func type
+	vars     []string          // section variables for stored functions, in order
+	varTy    map[string]string // their Coq types
+	fnVals   map[string]*gctT  // function package: name -> func type (declared functions and initialised vars)
+	fnDone   map[string]bool   // function package: translated by this file
+	failed   bool
+	curFn    string
+	ntmp     int
+	imports  map[string]string
+	p        *pkgInfo
+	pkgKey   string
+	curRecv  *gctVar
+	curMut   bool
+	curRes   []*gctT
+	curState *gctVar // a statefn literal's parameter
+}
+
+var gct *gctState
+
+func (s *gctState) fail(n ast.Node, format string, a ...interface{}) {
+	s.failed = true
+	where := ""
+	if n != nil && s.p != nil {
+		where = s.p.fset.Position(n.Pos()).String() + ": "
+	}
+	problem("evalctx %s: %s%s", s.curFn, where, fmt.Sprintf(format, a...))
+}
+
+func (s *gctState) src(n ast.Node) string { return gapSrc(s.p.fset, n) }
+
+func (s *gctState) tmp() string {
+	s.ntmp++
+	return "t" + strconv.Itoa(s.ntmp)
+}
+
+func gctImports(f *ast.File) map[string]string {
+	m := map[string]string{}
+	for _, im := range f.Imports {
+		path, _ := strconv.Unquote(im.Path.Value)
+		name := path[strings.LastIndex(path, "/")+1:]
+		if im.Name != nil {
+			name = im.Name.Name
+		}
+		m[name] = path
+	}
+	return m
+}
+
+const gctQ = "github.com/tobgu/qframe/"
+
+// ------------------------------------------------------------------ types
+
+func (s *gctState) resolve(e ast.Expr) *gctT {
+	switch t := e.(type) {
+	case *ast.ParenExpr:
+		return s.resolve(t.X)
+	case *ast.Ident:
+		switch t.Name {
+		case "int", "byte":
+			return gctZ
+		case "float64":
+			return gctF64
+		case "bool":
+			return gctBool
+		case "string":
+			return gctString
+		case "error":
+			return gctErr
+		}
+		if s.pkgKey == "eval" {
+			if ty, ok := s.named[t.Name]; ok {
+				return ty
+			}
+		}
+	case *ast.StarExpr:
+		in := s.resolve(t.X)
+		if in.k == "string" {
+			return gctPstr
+		}
+		if in.k == "struct" {
+			return &gctT{k: "ptr", elem: in}
+		}
+	case *ast.InterfaceType:
+		if t.Methods == nil || len(t.Methods.List) == 0 {
+			return gctDyn
+		}
+	case *ast.MapType:
+		k, v := s.resolve(t.Key), s.resolve(t.Value)
+		if (k.k == "string" || k.k == "Z") && v.k != "bad" {
+			return &gctT{k: "map", key: k, elem: v}
+		}
+	case *ast.ArrayType:
+		if t.Len == nil {
+			el := s.resolve(t.Elt)
+			if el.k != "bad" {
+				return &gctT{k: "slice", elem: el}
+			}
+		}
+	case *ast.SelectorExpr:
+		if id, ok := t.X.(*ast.Ident); ok && s.imports[id.Name] == gctQ+"types" && t.Sel.Name == "FunctionType" {
+			// checked against the declaration: a byte type
+			tp := loadPkg("types")
+			for _, f := range tp.files {
+				for _, d := range f.Decls {
+					if gd, ok := d.(*ast.GenDecl); ok && gd.Tok == token.TYPE {
+						for _, sp := range gd.Specs {
+							ts := sp.(*ast.TypeSpec)
+							if ts.Name.Name == "FunctionType" {
+								if bid, ok := ts.Type.(*ast.Ident); ok && bid.Name == "byte" {
+									return gctZ
+								}
+							}
+						}
+					}
+				}
+			}
+		}
+	case *ast.FuncType:
+		ft := &gctT{k: "func"}
+		if t.Params != nil {
+			for _, f := range t.Params.List {
+				pt := s.resolve(f.Type)
+				if pt.k == "bad" {
+					return gctBad
+				}
+				n := len(f.Names)
+				if n == 0 {
+					n = 1
+				}
+				for i := 0; i < n; i++ {
+					ft.params = append(ft.params, pt)
+				}
+			}
+		}
+		if t.Results != nil {
+			if len(t.Results.List) != 1 || len(t.Results.List[0].Names) > 1 {
+				return gctBad
+			}
+			ft.result = s.resolve(t.Results.List[0].Type)
+			if ft.result.k == "bad" {
+				return gctBad
+			}
+		}
+		// func(*T) without result: the in/out reading
+		if ft.result == nil && len(ft.params) == 1 && ft.params[0].k == "ptr" {
+			return &gctT{k: "statefn", elem: ft.params[0].elem}
+		}
+		return ft
+	}
+	s.fail(e, "type %s is outside the scheme", s.src(e))
+	return gctBad
+}
+
+func (s *gctState) zero(t *gctT) string {
+	switch t.k {
+	case "Z":
+		return "0"
+	case "bool":
+		return "false"
+	case "string":
+		return "(@nil N)"
+	case "pstr", "err", "map", "ptr":
+		return "None"
+	case "dyn":
+		return "gct_dyn_nil"
+	case "struct":
+		st := s.structs[t.name]
+		r := "(gct_mk_" + t.name
+		for _, f := range st.fields {
+			r += " " + s.zero(f.ty)
+		}
+		return r + ")"
+	}
+	s.fail(nil, "no zero value for %s", t.coq())
+	return "BAD"
+}
+
+func gctDynName(ft *gctT) string {
+	ps := []string{}
+	for _, p := range ft.params {
+		ps = append(ps, p.short())
+	}
+	r := "unit"
+	if ft.result != nil {
+		r = ft.result.short()
+	}
+	return "gct_dyn_func_" + strings.Join(ps, "_") + "_to_" + r
+}
+
+func (s *gctState) dynCon(n ast.Node, ft *gctT) string {
+	if ft.k != "func" || ft.result == nil || len(ft.params) == 0 {
+		s.fail(n, "dynamic type %s is outside the scheme", ft.coq())
+		return "gct_dyn_other"
+	}
+	for _, p := range append(append([]*gctT{}, ft.params...), ft.result) {
+		if p.short() == "X" {
+			s.fail(n, "dynamic type %s is outside the scheme", ft.coq())
+			return "gct_dyn_other"
+		}
+	}
+	name := gctDynName(ft)
+	if _, ok := s.dynTy[name]; !ok {
+		s.dynTy[name] = ft
+		s.dyns = append(s.dyns, name)
+	}
+	return name
+}
+
+// ------------------------------------------------------------------ environment
+
+type gctEnv struct {
+	vars []gctVar
+}
+
+func (c gctEnv) push(name string, ty *gctT) gctEnv {
+	n := make([]gctVar, len(c.vars), len(c.vars)+1)
+	copy(n, c.vars)
+	return gctEnv{append(n, gctVar{name, ty})}
+}
+
+func (c gctEnv) lookup(name string) (*gctT, bool) {
+	for i := len(c.vars) - 1; i >= 0; i-- {
+		if c.vars[i].name == name {
+			return c.vars[i].ty, true
+		}
+	}
+	return nil, false
+}
+
+// ------------------------------------------------------------------ expressions
+
+func (s *gctState) bind(pre *[]string, rhs string) string {
+	t := s.tmp()
+	*pre = append(*pre, fmt.Sprintf("do %s <- %s;", t, rhs))
+	return t
+}
+
+func (s *gctState) strLit(e ast.Expr) (string, bool) {
+	if bl, ok := e.(*ast.BasicLit); ok && bl.Kind == token.STRING {
+		v, err := strconv.Unquote(bl.Value)
+		if err == nil {
+			return v, true
+		}
+	}
+	return "", false
+}
+
+func (s *gctState) isNil(e ast.Expr) bool {
+	id, ok := e.(*ast.Ident)
+	return ok && id.Name == "nil"
+}
+
+func (s *gctState) pkgOf(e ast.Expr) (string, string, bool) {
+	if sel, ok := e.(*ast.SelectorExpr); ok {
+		if id, ok := sel.X.(*ast.Ident); ok {
+			if path, ok := s.imports[id.Name]; ok {
+				return path, sel.Sel.Name, true
+			}
+		}
+	}
+	return "", "", false
+}
+
+// a function of another package used as a value
+func (s *gctState) funcValue(n ast.Node, path, name string) (string, *gctT) {
+	switch {
+	case path == gctQ+"function":
+		ft, ok := s.fnVals[name]
+		if !ok {
+			s.fail(n, "function.%s is not a function of a known type", name)
+			return "BAD", gctBad
+		}
+		if s.fnDone[name] {
+			return "gct_function_" + name, ft
+		}
+		v := "function_" + name
+		if _, ok := s.varTy[v]; !ok {
+			s.varTy[v] = ft.coq()
+			s.vars = append(s.vars, v)
+		}
+		return v, ft
+	case path == "math" && name == "Abs":
+		ft := &gctT{k: "func", params: []*gctT{gctF64}, result: gctF64}
+		if _, ok := s.varTy["math_Abs"]; !ok {
+			s.varTy["math_Abs"] = ft.coq()
+			s.vars = append(s.vars, "math_Abs")
+		}
+		return "math_Abs", ft
+	case path == "strings" && (name == "ToUpper" || name == "ToLower"):
+		return "go_strings_" + name, &gctT{k: "func", params: []*gctT{gctString}, result: gctString}
+	}
+	s.fail(n, "function value %s.%s is outside the vocabulary", path, name)
+	return "BAD", gctBad
+}
+
+func (s *gctState) coerce(n ast.Node, text string, have, want *gctT) string {
+	if want == nil || have.k == "bad" || want.k == "bad" {
+		return text
+	}
+	if want.k == "dyn" && have.k == "func" {
+		return "(" + s.dynCon(n, have) + " " + text + ")"
+	}
+	if !have.same(want) {
+		s.fail(n, "a value of type %s where %s is expected", have.coq(), want.coq())
+	}
+	return text
+}
+
+func (s *gctState) expr(e ast.Expr, c gctEnv, pre *[]string, want *gctT) (string, *gctT) {
+	switch x := e.(type) {
+	case *ast.ParenExpr:
+		return s.expr(x.X, c, pre, want)
+	case *ast.BasicLit:
+		if v, ok := s.strLit(x); ok {
+			return coqBytes(v), gctString
+		}
+		if x.Kind == token.INT {
+			return x.Value, gctZ
+		}
+	case *ast.Ident:
+		switch x.Name {
+		case "nil":
+			if want != nil {
+				switch want.k {
+				case "pstr", "err", "map", "ptr":
+					return "None", want
+				case "dyn":
+					return "gct_dyn_nil", want
+				}
+			}
+			s.fail(x, "nil without a known type")
+			return "BAD", gctBad
+		case "true", "false":
+			return x.Name, gctBool
+		}
+		if ty, ok := c.lookup(x.Name); ok {
+			if ty.k == "map" {
+				s.fail(x, "a map value is copied (%s)", x.Name)
+			}
+			return "v_" + x.Name, ty
+		}
+		if s.pkgKey == "eval" {
+			if _, ok := gctConsts["gct_"+x.Name]; ok {
+				return "gct_" + x.Name, gctZ
+			}
+		}
+	case *ast.SelectorExpr:
+		if path, name, ok := s.pkgOf(x); ok {
+			if path == gctQ+"types" {
+				if _, ok := gctConsts["gct_types_"+name]; ok {
+					return "gct_types_" + name, gctZ
+				}
+			}
+			return s.funcValue(x, path, name)
+		}
+		return s.field(x, c, pre)
+	case *ast.IndexExpr:
+		m, mt := s.place(x.X, c, pre)
+		if mt.k != "map" {
+			break
+		}
+		k, kt := s.expr(x.Index, c, pre, mt.key)
+		s.coerce(x.Index, k, kt, mt.key)
+		return fmt.Sprintf("(fst (gct_mget %s %s %s %s))", gctEqb(mt.key), s.zero(mt.elem), m, k), mt.elem
+	case *ast.StarExpr:
+		p, pt := s.expr(x.X, c, pre, nil)
+		if pt.k == "pstr" {
+			return s.bind(pre, "gct_deref "+p), gctString
+		}
+	case *ast.UnaryExpr:
+		switch x.Op {
+		case token.NOT:
+			a, at := s.expr(x.X, c, pre, gctBool)
+			s.coerce(x.X, a, at, gctBool)
+			return "(negb " + a + ")", gctBool
+		case token.AND:
+			if cl, ok := x.X.(*ast.CompositeLit); ok {
+				v, vt := s.composite(cl, c, pre)
+				if vt.k == "struct" {
+					return "(Some " + v + ")", &gctT{k: "ptr", elem: vt}
+				}
+			}
+			if id, ok := x.X.(*ast.Ident); ok {
+				if ty, ok := c.lookup(id.Name); ok && ty.k == "string" {
+					return "(Some v_" + id.Name + ")", gctPstr
+				}
+			}
+		}
+	case *ast.BinaryExpr:
+		return s.binary(x, c, pre)
+	case *ast.CompositeLit:
+		return s.composite(x, c, pre)
+	case *ast.CallExpr:
+		return s.call(x, c, pre)
+	case *ast.FuncLit:
+		return s.funcLit(x, c)
+	}
+	s.fail(e, "expression %s is outside the scheme", s.src(e))
+	return "BAD", gctBad
+}
+
+func gctEqb(k *gctT) string {
+	if k.k == "string" {
+		return "bytes_eqb"
+	}
+	return "Z.eqb"
+}
+
+// place: an expression that may be of map type (read in place, not copied): a field path
+func (s *gctState) place(e ast.Expr, c gctEnv, pre *[]string) (string, *gctT) {
+	if sel, ok := e.(*ast.SelectorExpr); ok {
+		if _, _, isPkg := s.pkgOf(sel); !isPkg {
+			return s.field(sel, c, pre)
+		}
+	}
+	return s.expr(e, c, pre, nil)
+}
+
+func (s *gctState) field(x *ast.SelectorExpr, c gctEnv, pre *[]string) (string, *gctT) {
+	b, bt := s.expr(x.X, c, pre, nil)
+	if bt.k == "ptr" {
+		b = s.bind(pre, "gct_deref "+b)
+		bt = bt.elem
+	}
+	if bt.k == "struct" {
+		for _, f := range s.structs[bt.name].fields {
+			if f.name == x.Sel.Name {
+				return "(gct_" + bt.name + "_" + f.name + " " + b + ")", f.ty
+			}
+		}
+	}
+	s.fail(x, "selector %s is outside the scheme", s.src(x))
+	return "BAD", gctBad
+}
+
+func (s *gctState) binary(x *ast.BinaryExpr, c gctEnv, pre *[]string) (string, *gctT) {
+	if x.Op == token.EQL || x.Op == token.NEQ {
+		var other ast.Expr
+		if s.isNil(x.Y) {
+			other = x.X
+		} else if s.isNil(x.X) {
+			other = x.Y
+		}
+		if other != nil {
+			a, at := s.place(other, c, pre)
+			switch at.k {
+			case "pstr", "err", "ptr", "map":
+				r := "(gct_isnil " + a + ")"
+				if x.Op == token.NEQ {
+					r = "(negb " + r + ")"
+				}
+				return r, gctBool
+			}
+			s.fail(x, "comparison of a %s with nil", at.coq())
+			return "BAD", gctBad
+		}
+	}
+	if x.Op == token.LAND || x.Op == token.LOR {
+		// the right operand is evaluated only when needed: it must be free of effects
+		a, at := s.expr(x.X, c, pre, gctBool)
+		var pre2 []string
+		b, bt := s.expr(x.Y, c, &pre2, gctBool)
+		if len(pre2) > 0 || at.k != "bool" || bt.k != "bool" {
+			s.fail(x, "operands of %s", x.Op)
+		}
+		if x.Op == token.LAND {
+			return "(" + a + " && " + b + ")", gctBool
+		}
+		return "(" + a + " || " + b + ")", gctBool
+	}
+	a, at := s.expr(x.X, c, pre, nil)
+	b, bt := s.expr(x.Y, c, pre, at)
+	if at.k == "bad" || bt.k == "bad" {
+		return "BAD", gctBad
+	}
+	if !at.same(bt) {
+		s.fail(x, "operands of different types")
+		return "BAD", gctBad
+	}
+	switch {
+	case at.k == "Z":
+		switch x.Op {
+		case token.EQL:
+			return "(" + a + " =? " + b + ")", gctBool
+		case token.NEQ:
+			return "(negb (" + a + " =? " + b + "))", gctBool
+		case token.LSS:
+			return "(" + a + " <? " + b + ")", gctBool
+		case token.GTR:
+			return "(" + b + " <? " + a + ")", gctBool
+		case token.LEQ:
+			return "(" + a + " <=? " + b + ")", gctBool
+		case token.GEQ:
+			return "(" + b + " <=? " + a + ")", gctBool
+		}
+	case at.k == "string" && x.Op == token.ADD:
+		return "(" + a + " ++ " + b + ")", gctString
+	}
+	s.fail(x, "operator %s on %s is outside the scheme", x.Op, at.coq())
+	return "BAD", gctBad
+}
+
+func (s *gctState) composite(x *ast.CompositeLit, c gctEnv, pre *[]string) (string, *gctT) {
+	ty := s.resolve(x.Type)
+	switch ty.k {
+	case "struct":
+		st := s.structs[ty.name]
+		vals := make([]string, len(st.fields))
+		for i, f := range st.fields {
+			vals[i] = s.zero(f.ty)
+		}
+		for i, el := range x.Elts {
+			pos := i
+			var ve ast.Expr = el
+			if kv, ok := el.(*ast.KeyValueExpr); ok {
+				pos = -1
+				if id, ok := kv.Key.(*ast.Ident); ok {
+					for j, f := range st.fields {
+						if f.name == id.Name {
+							pos = j
+						}
+					}
+				}
+				ve = kv.Value
+			}
+			if pos < 0 || pos >= len(st.fields) {
+				s.fail(el, "field of the literal")
+				continue
+			}
+			v, vt := s.litValue(ve, c, pre, st.fields[pos].ty)
+			vals[pos] = s.coerce(ve, v, vt, st.fields[pos].ty)
+		}
+		return "(gct_mk_" + ty.name + " " + strings.Join(vals, " ") + ")", ty
+	case "map":
+		items := []string{}
+		seen := map[string]bool{}
+		for _, el := range x.Elts {
+			kv, ok := el.(*ast.KeyValueExpr)
+			if !ok {
+				s.fail(el, "element of a map literal")
+				continue
+			}
+			var kpre []string
+			k, kt := s.expr(kv.Key, c, &kpre, ty.key)
+			s.coerce(kv.Key, k, kt, ty.key)
+			if len(kpre) > 0 {
+				s.fail(kv.Key, "key of a map literal")
+			}
+			if seen[k] {
+				s.fail(kv.Key, "key %s twice in a map literal", s.src(kv.Key))
+			}
+			seen[k] = true
+			v, vt := s.litValue(kv.Value, c, pre, ty.elem)
+			v = s.coerce(kv.Value, v, vt, ty.elem)
+			items = append(items, "("+k+", "+v+")")
+		}
+		return "(Some [" + strings.Join(items, ";\n    ") + "])", ty
+	}
+	s.fail(x, "literal %s is outside the scheme", s.src(x.Type))
+	return "BAD", gctBad
+}
+
+// the value of a literal's element: a nested literal (its type may be left out in Go) or an expression; a map that
+// is not itself a literal would be a second reference to an existing map
+func (s *gctState) litValue(e ast.Expr, c gctEnv, pre *[]string, want *gctT) (string, *gctT) {
+	if cl, ok := e.(*ast.CompositeLit); ok {
+		if cl.Type == nil {
+			s.fail(e, "literal without type")
+			return "BAD", gctBad
+		}
+		return s.composite(cl, c, pre)
+	}
+	if want.k == "map" && !s.isNil(e) {
+		s.fail(e, "a map that is not a literal is stored (%s): a second reference to a map", s.src(e))
+		return "BAD", gctBad
+	}
+	return s.expr(e, c, pre, want)
+}
+
+func (s *gctState) pureArg(e ast.Expr, c gctEnv) bool {
+	if id, ok := e.(*ast.Ident); ok {
+		_, ok := c.lookup(id.Name)
+		return ok
+	}
+	if call, ok := e.(*ast.CallExpr); ok && len(call.Args) == 1 {
+		if path, name, ok := s.pkgOf(call.Fun); ok && path == "reflect" && name == "TypeOf" {
+			return s.pureArg(call.Args[0], c)
+		}
+	}
+	return false
+}
+
+func (s *gctState) call(x *ast.CallExpr, c gctEnv, pre *[]string) (string, *gctT) {
+	if id, ok := x.Fun.(*ast.Ident); ok {
+		switch id.Name {
+		case "len":
+			if len(x.Args) == 1 {
+				a, at := s.expr(x.Args[0], c, pre, nil)
+				if at.k == "string" || at.k == "slice" {
+					return "(Z.of_nat (length " + a + "))", gctZ
+				}
+			}
+		case "int":
+			if len(x.Args) == 1 {
+				a, at := s.expr(x.Args[0], c, pre, nil)
+				if at.k == "f64" {
+					return "(f64_to_int " + a + ")", gctZ
+				}
+			}
+		case "float64":
+			if len(x.Args) == 1 {
+				a, at := s.expr(x.Args[0], c, pre, nil)
+				if at.k == "Z" {
+					return "(int_to_f64 " + a + ")", gctF64
+				}
+			}
+		}
+		// a variable of function type
+		if ty, ok := c.lookup(id.Name); ok && ty.k == "func" && len(ty.params) == len(x.Args) && ty.result != nil {
+			args := []string{}
+			for i, a := range x.Args {
+				v, vt := s.expr(a, c, pre, ty.params[i])
+				args = append(args, s.coerce(a, v, vt, ty.params[i]))
+			}
+			return s.bind(pre, "v_"+id.Name+" "+strings.Join(args, " ")), ty.result
+		}
+		// a function of the same package
+		if g, ok := s.fns[s.pkgKey+"."+id.Name]; ok && g.recv == nil && len(g.params) == len(x.Args) && len(g.results) == 1 {
+			args := []string{}
+			for i, a := range x.Args {
+				v, vt := s.expr(a, c, pre, g.params[i].ty)
+				args = append(args, s.coerce(a, v, vt, g.params[i].ty))
+			}
+			callText := strings.TrimSpace(g.coq + " " + strings.Join(args, " "))
+			if g.pureFun {
+				return "(" + callText + ")", g.results[0]
+			}
+			return s.bind(pre, callText), g.results[0]
+		}
+	}
+	if path, name, ok := s.pkgOf(x.Fun); ok {
+		switch {
+		case path == gctQ+"internal/strings" && name == "CheckName" && len(x.Args) == 1:
+			a, at := s.expr(x.Args[0], c, pre, gctString)
+			s.coerce(x.Args[0], a, at, gctString)
+			return "(strings_CheckName " + a + ")", gctErr
+		case path == gctQ+"qerrors" && name == "Propagate" && len(x.Args) == 2:
+			if op, ok := s.strLit(x.Args[0]); ok {
+				a, at := s.expr(x.Args[1], c, pre, gctErr)
+				s.coerce(x.Args[1], a, at, gctErr)
+				return "(Some (err_Propagate " + coqBytes(op) + " " + a + "))", gctErr
+			}
+		case path == gctQ+"qerrors" && name == "New" && len(x.Args) >= 2:
+			op, ok1 := s.strLit(x.Args[0])
+			f, ok2 := s.strLit(x.Args[1])
+			if ok1 && ok2 {
+				for _, a := range x.Args[2:] {
+					if !s.pureArg(a, c) {
+						s.fail(a, "argument of qerrors.New")
+					}
+				}
+				return "(Some (err_New " + coqBytes(op) + " " + coqBytes(f) + "))", gctErr
+			}
+		case path == "strconv" && name == "Itoa" && len(x.Args) == 1:
+			a, at := s.expr(x.Args[0], c, pre, gctZ)
+			s.coerce(x.Args[0], a, at, gctZ)
+			return "(strconv_Itoa " + a + ")", gctString
+		case path == "strconv" && name == "FormatBool" && len(x.Args) == 1:
+			a, at := s.expr(x.Args[0], c, pre, gctBool)
+			s.coerce(x.Args[0], a, at, gctBool)
+			return "(strconv_FormatBool " + a + ")", gctString
+		case path == "fmt" && name == "Sprintf" && len(x.Args) == 2:
+			if f, ok := s.strLit(x.Args[0]); ok && f == "%f" {
+				a, at := s.expr(x.Args[1], c, pre, gctF64)
+				s.coerce(x.Args[1], a, at, gctF64)
+				return "(fmt_Sprintf_f " + a + ")", gctString
+			}
+		}
+	}
+	s.fail(x, "call %s is outside the scheme", s.src(x))
+	return "BAD", gctBad
+}
+
+// func(params) result { body } as a Coq fun; func(c *T) { stores into c } as gct_T -> outcome gct_T
+func (s *gctState) funcLit(x *ast.FuncLit, c gctEnv) (string, *gctT) {
+	ft := s.resolve(x.Type)
+	saveRecv, saveMut, saveRes, saveState := s.curRecv, s.curMut, s.curRes, s.curState
+	defer func() { s.curRecv, s.curMut, s.curRes, s.curState = saveRecv, saveMut, saveRes, saveState }()
+	switch ft.k {
+	case "func":
+		c2 := c
+		binders := ""
+		i := 0
+		for _, f := range x.Type.Params.List {
+			for _, n := range f.Names {
+				c2 = c2.push(n.Name, ft.params[i])
+				binders += fmt.Sprintf(" (v_%s : %s)", n.Name, ft.params[i].coq())
+				i++
+			}
+		}
+		if i != len(ft.params) || ft.result == nil {
+			break
+		}
+		s.curRecv, s.curMut, s.curRes, s.curState = nil, false, []*gctT{ft.result}, nil
+		body := s.stmts(x.Body.List, c2, func(gctEnv) string {
+			s.fail(x, "a function literal that does not end in return")
+			return "Panic"
+		})
+		return "(fun" + binders + " =>\n" + gapIndent(body) + ")", ft
+	case "statefn":
+		if len(x.Type.Params.List) == 1 && len(x.Type.Params.List[0].Names) == 1 {
+			n := x.Type.Params.List[0].Names[0].Name
+			sv := gctVar{n, ft.elem}
+			c2 := c.push(n, ft.elem)
+			s.curRecv, s.curMut, s.curRes, s.curState = nil, false, nil, &sv
+			body := s.stmts(x.Body.List, c2, func(gctEnv) string { return "Ok v_" + n })
+			return fmt.Sprintf("(fun (v_%s : %s) =>\n%s)", n, ft.elem.coq(), gapIndent(body)), ft
+		}
+	}
+	s.fail(x, "function literal %s is outside the scheme", s.src(x.Type))
+	return "BAD", gctBad
+}
+
+// ------------------------------------------------------------------ statements
+
+func gctJoin(pre []string, last string) string {
+	if len(pre) == 0 {
+		return last
+	}
+	return strings.Join(pre, "\n") + "\n" + last
+}
+
+type gctStep struct {
+	field string // field name, or
+	key   string // the Coq text of a map key
+	isKey bool
+}
+
+// store: path = value, the functional update described in the scheme
+func (s *gctState) store(n ast.Node, lhs ast.Expr, rhs string, rt *gctT, c gctEnv, pre *[]string) {
+	// decompose
+	var steps []ast.Expr
+	cur := lhs
+	for {
+		steps = append([]ast.Expr{cur}, steps...)
+		switch t := cur.(type) {
+		case *ast.SelectorExpr:
+			cur = t.X
+			continue
+		case *ast.IndexExpr:
+			cur = t.X
+			continue
+		}
+		break
+	}
+	root, ok := steps[0].(*ast.Ident)
+	if !ok {
+		s.fail(n, "store into %s", s.src(lhs))
+		return
+	}
+	rty, ok := c.lookup(root.Name)
+	if !ok {
+		s.fail(n, "store into %s", s.src(lhs))
+		return
+	}
+	isRecv := s.curRecv != nil && s.curRecv.name == root.Name
+	isState := s.curState != nil && s.curState.name == root.Name
+	isLocalStruct := rty.k == "struct"
+	if !isRecv && !isState && !isLocalStruct {
+		s.fail(n, "store through %s, which is neither the receiver nor a local struct value", root.Name)
+		return
+	}
+	// read every prefix into a temporary
+	type lvl struct {
+		val  string
+		ty   *gctT
+		step gctStep
+	}
+	var lv []lvl
+	val, ty := "v_"+root.Name, rty
+	if ty.k == "ptr" {
+		val = s.bind(pre, "gct_deref "+val)
+		ty = ty.elem
+	}
+	lv = append(lv, lvl{val: val, ty: ty})
+	for _, st := range steps[1:] {
+		prev := lv[len(lv)-1]
+		switch t := st.(type) {
+		case *ast.SelectorExpr:
+			if prev.ty.k != "struct" {
+				s.fail(n, "store into %s", s.src(lhs))
+				return
+			}
+			var fty *gctT
+			for _, f := range s.structs[prev.ty.name].fields {
+				if f.name == t.Sel.Name {
+					fty = f.ty
+				}
+			}
+			if fty == nil {
+				s.fail(n, "store into %s", s.src(lhs))
+				return
+			}
+			lv[len(lv)-1].step = gctStep{field: t.Sel.Name}
+			tmp := s.tmp()
+			*pre = append(*pre, fmt.Sprintf("let %s := gct_%s_%s %s in", tmp, prev.ty.name, t.Sel.Name, prev.val))
+			lv = append(lv, lvl{val: tmp, ty: fty})
+		case *ast.IndexExpr:
+			if prev.ty.k != "map" {
+				s.fail(n, "store into %s", s.src(lhs))
+				return
+			}
+			k, kt := s.expr(t.Index, c, pre, prev.ty.key)
+			s.coerce(t.Index, k, kt, prev.ty.key)
+			lv[len(lv)-1].step = gctStep{key: k, isKey: true}
+			if st == steps[len(steps)-1] {
+				lv = append(lv, lvl{ty: prev.ty.elem})
+			} else {
+				tmp := s.tmp()
+				*pre = append(*pre, fmt.Sprintf("let %s := fst (gct_mget %s %s %s %s) in", tmp, gctEqb(prev.ty.key), s.zero(prev.ty.elem), prev.val, k))
+				lv = append(lv, lvl{val: tmp, ty: prev.ty.elem})
+			}
+		}
+	}
+	last := lv[len(lv)-1]
+	if last.ty.k == "map" && rhs != "None" {
+		s.fail(n, "a map is stored: a second reference to a map")
+	}
+	newv := s.coerce(n, rhs, rt, last.ty)
+	// write back
+	for i := len(lv) - 2; i >= 0; i-- {
+		l := lv[i]
+		if l.step.isKey {
+			newv = s.bind(pre, fmt.Sprintf("gct_mset %s %s %s %s", gctEqb(l.ty.key), l.val, l.step.key, newv))
+		} else {
+			st := s.structs[l.ty.name]
+			parts := []string{}
+			for _, f := range st.fields {
+				if f.name == l.step.field {
+					parts = append(parts, newv)
+				} else {
+					parts = append(parts, "(gct_"+l.ty.name+"_"+f.name+" "+l.val+")")
+				}
+			}
+			tmp := s.tmp()
+			*pre = append(*pre, fmt.Sprintf("let %s := gct_mk_%s %s in", tmp, l.ty.name, strings.Join(parts, " ")))
+			newv = tmp
+		}
+	}
+	if rty.k == "ptr" {
+		newv = "(Some " + newv + ")"
+	}
+	*pre = append(*pre, fmt.Sprintf("let v_%s := %s in", root.Name, newv))
+	if isRecv {
+		s.curMut = true
+	}
+}
+
+func (s *gctState) assignVar(n ast.Node, tok token.Token, lhs ast.Expr, text string, ty *gctT, c *gctEnv, pre *[]string) {
+	id, ok := lhs.(*ast.Ident)
+	if !ok {
+		if tok == token.ASSIGN {
+			s.store(n, lhs, text, ty, *c, pre)
+			return
+		}
+		s.fail(n, "assignment to %s", s.src(lhs))
+		return
+	}
+	if id.Name == "_" {
+		return
+	}
+	if tok == token.DEFINE {
+		if ty.k == "map" {
+			s.fail(n, "a map value is copied into %s", id.Name)
+		}
+		*c = c.push(id.Name, ty)
+	} else {
+		old, ok := c.lookup(id.Name)
+		if !ok {
+			s.fail(n, "assignment to %s", id.Name)
+			return
+		}
+		text = s.coerce(n, text, ty, old)
+	}
+	*pre = append(*pre, fmt.Sprintf("let v_%s := %s in", id.Name, text))
+}
+
+// simple: a statement without control flow; answers the lines to put before the continuation
+func (s *gctState) simple(st ast.Stmt, c *gctEnv) []string {
+	var pre []string
+	switch x := st.(type) {
+	case *ast.DeclStmt:
+		gd, ok := x.Decl.(*ast.GenDecl)
+		if ok && gd.Tok == token.VAR {
+			for _, sp := range gd.Specs {
+				vs := sp.(*ast.ValueSpec)
+				if vs.Type == nil || len(vs.Values) != 0 {
+					s.fail(st, "var declaration")
+					continue
+				}
+				ty := s.resolve(vs.Type)
+				for _, n := range vs.Names {
+					*c = c.push(n.Name, ty)
+					pre = append(pre, fmt.Sprintf("let v_%s := %s in", n.Name, s.zero(ty)))
+				}
+			}
+			return pre
+		}
+	case *ast.AssignStmt:
+		if x.Tok != token.DEFINE && x.Tok != token.ASSIGN {
+			break
+		}
+		if len(x.Lhs) == 2 && len(x.Rhs) == 1 {
+			// v, ok = m[k]
+			if ix, ok := x.Rhs[0].(*ast.IndexExpr); ok {
+				m, mt := s.place(ix.X, *c, &pre)
+				if mt.k == "map" {
+					k, kt := s.expr(ix.Index, *c, &pre, mt.key)
+					s.coerce(ix.Index, k, kt, mt.key)
+					t1, t2 := s.tmp(), s.tmp()
+					pre = append(pre, fmt.Sprintf("let '(%s, %s) := gct_mget %s %s %s %s in", t1, t2, gctEqb(mt.key), s.zero(mt.elem), m, k))
+					s.assignVar(st, x.Tok, x.Lhs[0], t1, mt.elem, c, &pre)
+					s.assignVar(st, x.Tok, x.Lhs[1], t2, gctBool, c, &pre)
+					return pre
+				}
+			}
+			break
+		}
+		if len(x.Lhs) == len(x.Rhs) {
+			// all right hand sides first
+			vals := make([]string, len(x.Rhs))
+			tys := make([]*gctT, len(x.Rhs))
+			for i, r := range x.Rhs {
+				var want *gctT
+				if id, ok := x.Lhs[i].(*ast.Ident); ok && x.Tok == token.ASSIGN {
+					want, _ = c.lookup(id.Name)
+				}
+				vals[i], tys[i] = s.expr(r, *c, &pre, want)
+				if len(x.Rhs) > 1 {
+					t := s.tmp()
+					pre = append(pre, fmt.Sprintf("let %s := %s in", t, vals[i]))
+					vals[i] = t
+				}
+			}
+			for i := range x.Lhs {
+				if tys[i].k == "bad" {
+					continue
+				}
+				s.assignVar(st, x.Tok, x.Lhs[i], vals[i], tys[i], c, &pre)
+			}
+			return pre
+		}
+	case *ast.ExprStmt:
+		call, ok := x.X.(*ast.CallExpr)
+		if !ok {
+			break
+		}
+		// recv.method(args) of a storing method on the receiver of the current function
+		if sel, ok := call.Fun.(*ast.SelectorExpr); ok {
+			if id, ok := sel.X.(*ast.Ident); ok && s.curRecv != nil && id.Name == s.curRecv.name {
+				g, ok := s.fns[s.pkgKey+"."+s.curRecv.ty.elem.name+"."+sel.Sel.Name]
+				if ok && g.mutates && len(g.results) == 0 && len(g.params) == len(call.Args) {
+					args := []string{"v_" + id.Name}
+					for i, a := range call.Args {
+						v, vt := s.expr(a, *c, &pre, g.params[i].ty)
+						args = append(args, s.coerce(a, v, vt, g.params[i].ty))
+					}
+					pre = append(pre, fmt.Sprintf("do v_%s <- %s %s;", id.Name, g.coq, strings.Join(args, " ")))
+					s.curMut = true
+					return pre
+				}
+			}
+		}
+		// f(&v): a state function applied to a local struct
+		if id, ok := call.Fun.(*ast.Ident); ok && len(call.Args) == 1 {
+			if fty, ok := c.lookup(id.Name); ok && fty.k == "statefn" {
+				if u, ok := call.Args[0].(*ast.UnaryExpr); ok && u.Op == token.AND {
+					if vid, ok := u.X.(*ast.Ident); ok {
+						if vty, ok := c.lookup(vid.Name); ok && vty.same(fty.elem) {
+							pre = append(pre, fmt.Sprintf("do v_%s <- v_%s v_%s;", vid.Name, id.Name, vid.Name))
+							return pre
+						}
+					}
+				}
+			}
+		}
+	}
+	s.fail(st, "statement %s is outside the scheme", strings.SplitN(s.src(st), "\n", 2)[0])
+	return pre
+}
+
+func (s *gctState) ret(x *ast.ReturnStmt, c gctEnv) string {
+	var pre []string
+	parts := []string{}
+	if s.curRecv != nil && s.curMut {
+		parts = append(parts, "v_"+s.curRecv.name)
+	}
+	if len(x.Results) != len(s.curRes) {
+		s.fail(x, "return with %d values", len(x.Results))
+		return "Panic"
+	}
+	for i, r := range x.Results {
+		v, vt := s.expr(r, c, &pre, s.curRes[i])
+		parts = append(parts, s.coerce(r, v, vt, s.curRes[i]))
+	}
+	return gctJoin(pre, "Ok "+gapTuple(parts))
+}
+
+func (s *gctState) stmts(list []ast.Stmt, c gctEnv, k func(gctEnv) string) string {
+	if len(list) == 0 {
+		return k(c)
+	}
+	st, rest := list[0], list[1:]
+	cont := func(c2 gctEnv) string { return s.stmts(rest, c2, k) }
+	switch x := st.(type) {
+	case *ast.ReturnStmt:
+		if len(rest) > 0 {
+			s.fail(x, "statements after return")
+		}
+		return s.ret(x, c)
+	case *ast.IfStmt:
+		return s.ifStmt(x, c, cont)
+	case *ast.TypeSwitchStmt:
+		return s.typeSwitch(x, c, cont)
+	case *ast.SwitchStmt:
+		return s.valueSwitch(x, c, cont)
+	case *ast.RangeStmt:
+		return s.rangeStmt(x, c, cont)
+	case *ast.BlockStmt:
+		s.fail(x, "nested block")
+		return "Panic"
+	}
+	c2 := c
+	pre := s.simple(st, &c2)
+	return gctJoin(pre, cont(c2))
+}
+
+func (s *gctState) ifStmt(x *ast.IfStmt, c gctEnv, cont func(gctEnv) string) string {
+	c2 := c
+	var pre []string
+	if x.Init != nil {
+		pre = s.simple(x.Init, &c2)
+	}
+	cond, ct := s.expr(x.Cond, c2, &pre, gctBool)
+	if ct.k != "bool" && ct.k != "bad" {
+		s.fail(x.Cond, "condition")
+	}
+	// variables declared inside a branch or in the init statement do not reach the continuation (shadowing by let
+	// keeps the values of the assigned outer ones: the environment of types is the outer one extended by nothing new)
+	outer := func(ci gctEnv) gctEnv { return gctEnv{ci.vars[:len(c.vars)]} }
+	_ = outer
+	thenT := s.stmts(x.Body.List, c2, func(ci gctEnv) string { return cont(s.scopeOut(x, c, ci)) })
+	var elseT string
+	switch e := x.Else.(type) {
+	case nil:
+		elseT = cont(s.scopeOut(x, c, c2))
+	case *ast.BlockStmt:
+		elseT = s.stmts(e.List, c2, func(ci gctEnv) string { return cont(s.scopeOut(x, c, ci)) })
+	case *ast.IfStmt:
+		elseT = s.ifStmt(e, c2, func(ci gctEnv) string { return cont(s.scopeOut(x, c, ci)) })
+	}
+	return gctJoin(pre, "if "+cond+" then\n"+gapIndent(thenT)+"\nelse\n"+gapIndent(elseT))
+}
+
+// scopeOut: leaving a block; a name declared inside that hides an outer one of the same name would make the let
+// shadowing wrong for the continuation: rejected
+func (s *gctState) scopeOut(n ast.Node, outer, inner gctEnv) gctEnv {
+	for _, v := range inner.vars[len(outer.vars):] {
+		if _, ok := outer.lookup(v.name); ok {
+			s.fail(n, "%s is declared again in an inner block", v.name)
+		}
+	}
+	return outer
+}
+
+func (s *gctState) typeSwitch(x *ast.TypeSwitchStmt, c gctEnv, cont func(gctEnv) string) string {
+	es, ok := x.Assign.(*ast.ExprStmt)
+	if x.Init != nil || !ok {
+		s.fail(x, "type switch header (a binding or an init statement)")
+		return "Panic"
+	}
+	ta, ok := es.X.(*ast.TypeAssertExpr)
+	if !ok {
+		s.fail(x, "type switch header")
+		return "Panic"
+	}
+	id, ok := ta.X.(*ast.Ident)
+	var sty *gctT
+	if ok {
+		sty, ok = c.lookup(id.Name)
+	}
+	if !ok || sty.k != "dyn" {
+		s.fail(x, "type switch on %s", s.src(ta.X))
+		return "Panic"
+	}
+	var b strings.Builder
+	fmt.Fprintf(&b, "match v_%s with\n", id.Name)
+	seen := map[string]bool{}
+	defaultText := ""
+	hasDefault := false
+	for _, cl := range x.Body.List {
+		cc := cl.(*ast.CaseClause)
+		body := s.stmts(cc.Body, c, func(ci gctEnv) string { return cont(s.scopeOut(cc, c, ci)) })
+		if cc.List == nil {
+			hasDefault = true
+			defaultText = body
+			continue
+		}
+		pats := []string{}
+		for _, te := range cc.List {
+			if s.isNil(te) {
+				pats = append(pats, "gct_dyn_nil")
+				continue
+			}
+			ty := s.resolve(te)
+			if ty.k == "bad" {
+				continue
+			}
+			con := s.dynCon(te, ty)
+			if seen[con] {
+				s.fail(te, "type %s twice", s.src(te))
+			}
+			seen[con] = true
+			pats = append(pats, con+" _")
+		}
+		fmt.Fprintf(&b, "| %s =>\n%s\n", strings.Join(pats, " | "), gapIndent(body))
+	}
+	if !hasDefault {
+		defaultText = cont(c)
+	}
+	fmt.Fprintf(&b, "| _ =>\n%s\nend", gapIndent(defaultText))
+	return b.String()
+}
+
+func (s *gctState) valueSwitch(x *ast.SwitchStmt, c gctEnv, cont func(gctEnv) string) string {
+	if x.Init != nil || x.Tag == nil {
+		s.fail(x, "switch header")
+		return "Panic"
+	}
+	var pre []string
+	tag, tt := s.expr(x.Tag, c, &pre, nil)
+	if tt.k != "Z" {
+		s.fail(x, "switch on a %s", tt.coq())
+		return "Panic"
+	}
+	type arm struct{ cond, body string }
+	var arms []arm
+	defaultText := ""
+	hasDefault := false
+	for _, cl := range x.Body.List {
+		cc := cl.(*ast.CaseClause)
+		for _, st := range cc.Body {
+			if bs, ok := st.(*ast.BranchStmt); ok {
+				s.fail(bs, "%s in a switch", bs.Tok)
+			}
+		}
+		body := s.stmts(cc.Body, c, func(ci gctEnv) string { return cont(s.scopeOut(cc, c, ci)) })
+		if cc.List == nil {
+			hasDefault = true
+			defaultText = body
+			continue
+		}
+		conds := []string{}
+		for _, e := range cc.List {
+			var cp []string
+			v, vt := s.expr(e, c, &cp, gctZ)
+			if len(cp) > 0 || vt.k != "Z" {
+				s.fail(e, "case expression")
+			}
+			conds = append(conds, "("+tag+" =? "+v+")")
+		}
+		arms = append(arms, arm{strings.Join(conds, " || "), body})
+	}
+	if !hasDefault {
+		defaultText = cont(c)
+	}
+	text := defaultText
+	for i := len(arms) - 1; i >= 0; i-- {
+		text = "if " + arms[i].cond + " then\n" + gapIndent(arms[i].body) + "\nelse\n" + gapIndent(text)
+	}
+	return gctJoin(pre, text)
+}
+
+// for _, f := range ff { f(&v) }: the state functions applied in order
+func (s *gctState) rangeStmt(x *ast.RangeStmt, c gctEnv, cont func(gctEnv) string) string {
+	kid, kok := x.Key.(*ast.Ident)
+	vid, vok := x.Value.(*ast.Ident)
+	if x.Tok != token.DEFINE || !kok || kid.Name != "_" || !vok || len(x.Body.List) != 1 {
+		s.fail(x, "range loop is outside the scheme")
+		return "Panic"
+	}
+	var pre []string
+	l, lt := s.expr(x.X, c, &pre, nil)
+	if lt.k != "slice" || lt.elem.k != "statefn" {
+		s.fail(x, "range over %s", lt.coq())
+		return "Panic"
+	}
+	c2 := c.push(vid.Name, lt.elem)
+	body := s.simple(x.Body.List[0], &c2)
+	want := ""
+	var target string
+	if es, ok := x.Body.List[0].(*ast.ExprStmt); ok {
+		if call, ok := es.X.(*ast.CallExpr); ok && len(call.Args) == 1 {
+			if u, ok := call.Args[0].(*ast.UnaryExpr); ok {
+				if t, ok := u.X.(*ast.Ident); ok {
+					target = t.Name
+					want = fmt.Sprintf("do v_%s <- v_%s v_%s;", target, vid.Name, target)
+				}
+			}
+		}
+	}
+	if len(body) != 1 || body[0] != want || target == "" {
+		s.fail(x, "body of the range loop is outside the scheme")
+		return "Panic"
+	}
+	pre = append(pre, fmt.Sprintf("do v_%s <- gct_apply_all %s v_%s;", target, l, target))
+	return gctJoin(pre, cont(c))
+}
+
+// ------------------------------------------------------------------ declarations
+
+var gctConsts map[string]string
+var gctConstOrder []string
+
+// const blocks with iota of a named byte type
+func gctLoadConsts(p *pkgInfo, prefix string, typeNames map[string]bool) {
+	names := []string{}
+	for n := range p.files {
+		names = append(names, n)
+	}
+	sortStrings(names)
+	for _, fnm := range names {
+		for _, d := range p.files[fnm].Decls {
+			gd, ok := d.(*ast.GenDecl)
+			if !ok || gd.Tok != token.CONST {
+				continue
+			}
+			active := false
+			for i, sp := range gd.Specs {
+				vs := sp.(*ast.ValueSpec)
+				if len(vs.Values) > 0 {
+					active = false
+					if tid, ok := vs.Type.(*ast.Ident); ok && typeNames[tid.Name] && len(vs.Values) == 1 {
+						if iid, ok := vs.Values[0].(*ast.Ident); ok && iid.Name == "iota" {
+							active = true
+						}
+					}
+				}
+				if active && len(vs.Names) == 1 {
+					name := prefix + vs.Names[0].Name
+					gctConsts[name] = strconv.Itoa(i)
+					gctConstOrder = append(gctConstOrder, name)
+				}
+			}
+		}
+	}
+}
+
+func (s *gctState) loadTypes() {
+	// two passes: names first (structs by name, byte types), then fields
+	var specs []*ast.TypeSpec
+	names := []string{}
+	for n := range s.p.files {
+		names = append(names, n)
+	}
+	sortStrings(names)
+	for _, fnm := range names {
+		for _, d := range s.p.files[fnm].Decls {
+			if gd, ok := d.(*ast.GenDecl); ok && gd.Tok == token.TYPE {
+				for _, sp := range gd.Specs {
+					specs = append(specs, sp.(*ast.TypeSpec))
+				}
+			}
+		}
+	}
+	for _, ts := range specs {
+		switch t := ts.Type.(type) {
+		case *ast.StructType:
+			s.named[ts.Name.Name] = &gctT{k: "struct", name: ts.Name.Name}
+		case *ast.Ident:
+			if t.Name == "byte" {
+				s.named[ts.Name.Name] = gctZ
+			}
+		}
+	}
+	// maps and function types may refer to the structs
+	for pass := 0; pass < 2; pass++ {
+		for _, ts := range specs {
+			switch ts.Type.(type) {
+			case *ast.MapType, *ast.FuncType:
+				if _, ok := s.named[ts.Name.Name]; !ok {
+					save := problems
+					ty := s.resolve(ts.Type)
+					if ty.k != "bad" {
+						s.named[ts.Name.Name] = ty
+					} else if pass == 0 {
+						problems = save
+						s.failed = false
+					}
+				}
+			}
+		}
+	}
+	for _, ts := range specs {
+		st, ok := ts.Type.(*ast.StructType)
+		if !ok {
+			continue
+		}
+		gs := &gctStruct{name: ts.Name.Name}
+		for _, f := range st.Fields.List {
+			ty := s.resolve(f.Type)
+			for _, n := range f.Names {
+				gs.fields = append(gs.fields, gctField{n.Name, ty})
+			}
+			if len(f.Names) == 0 {
+				s.fail(f, "embedded field")
+			}
+		}
+		gs.src = "type " + ts.Name.Name + " " + s.src(ts.Type)
+		s.structs[ts.Name.Name] = gs
+		s.sorder = append(s.sorder, ts.Name.Name)
+	}
+}
+
+func gctStructDeps(t *gctT, out map[string]bool) {
+	if t == nil {
+		return
+	}
+	if t.k == "struct" {
+		out[t.name] = true
+	}
+	gctStructDeps(t.key, out)
+	gctStructDeps(t.elem, out)
+	gctStructDeps(t.result, out)
+	for _, p := range t.params {
+		gctStructDeps(p, out)
+	}
+}
+
+// structs after the structs their fields mention
+func (s *gctState) structOrder() []string {
+	var res []string
+	done := map[string]bool{}
+	for len(res) < len(s.sorder) {
+		progress := false
+		for _, n := range s.sorder {
+			if done[n] {
+				continue
+			}
+			deps := map[string]bool{}
+			for _, f := range s.structs[n].fields {
+				gctStructDeps(f.ty, deps)
+			}
+			ready := true
+			for d := range deps {
+				if d != n && !done[d] {
+					ready = false
+				}
+			}
+			if ready {
+				done[n] = true
+				res = append(res, n)
+				progress = true
+			}
+		}
+		if !progress {
+			s.fail(nil, "struct types refer to each other")
+			break
+		}
+	}
+	return res
+}
+
+func gctMutates(fd *ast.FuncDecl, recv string, mutating map[string]bool) bool {
+	found := false
+	ast.Inspect(fd.Body, func(n ast.Node) bool {
+		switch t := n.(type) {
+		case *ast.AssignStmt:
+			for _, l := range t.Lhs {
+				if _, ok := l.(*ast.Ident); !ok && gapRoot(l) == recv {
+					found = true
+				}
+			}
+		case *ast.CallExpr:
+			if sel, ok := t.Fun.(*ast.SelectorExpr); ok {
+				if id, ok := sel.X.(*ast.Ident); ok && id.Name == recv && mutating[sel.Sel.Name] {
+					found = true
+				}
+			}
+		}
+		return true
+	})
+	return found
+}
+
+func (s *gctState) signature(pkg, key string) *gctFn {
+	fd := s.p.funcs[key]
+	if fd == nil {
+		s.fail(nil, "function %s not found", key)
+		return nil
+	}
+	g := &gctFn{pkg: pkg, key: key, fd: fd}
+	if pkg == "eval" {
+		g.coq = "gct_" + strings.ReplaceAll(key, ".", "_")
+	} else {
+		g.coq = "gct_" + pkg + "_" + strings.ReplaceAll(key, ".", "_")
+	}
+	if fd.Recv != nil {
+		f := fd.Recv.List[0]
+		if len(f.Names) != 1 {
+			s.fail(fd, "receiver without name")
+			return nil
+		}
+		g.recv = &gctVar{f.Names[0].Name, s.resolve(f.Type)}
+	}
+	for _, f := range fd.Type.Params.List {
+		ty := s.resolve(f.Type)
+		for _, n := range f.Names {
+			g.params = append(g.params, gctVar{n.Name, ty})
+		}
+		if len(f.Names) == 0 {
+			s.fail(fd, "parameter without name")
+		}
+	}
+	if fd.Type.Results != nil {
+		for _, f := range fd.Type.Results.List {
+			ty := s.resolve(f.Type)
+			if len(f.Names) > 0 {
+				s.fail(fd, "named results")
+			}
+			g.results = append(g.results, ty)
+		}
+	}
+	if len(fd.Body.List) == 1 && len(g.results) == 1 && (g.results[0].k == "func" || g.results[0].k == "statefn") {
+		if r, ok := fd.Body.List[0].(*ast.ReturnStmt); ok && len(r.Results) == 1 {
+			if _, ok := r.Results[0].(*ast.FuncLit); ok {
+				g.pureFun = true
+			}
+		}
+	}
+	if len(g.results) == 1 && g.recv == nil {
+		ft := &gctT{k: "func", result: g.results[0]}
+		for _, p := range g.params {
+			ft.params = append(ft.params, p.ty)
+		}
+		g.funcType = ft
+	}
+	return g
+}
+
+func (s *gctState) translate(g *gctFn) string {
+	s.curFn = g.key
+	s.ntmp = 0
+	c := gctEnv{}
+	binders := ""
+	if g.recv != nil {
+		c = c.push(g.recv.name, g.recv.ty)
+		binders += fmt.Sprintf(" (v_%s : %s)", g.recv.name, g.recv.ty.coq())
+	}
+	for _, p := range g.params {
+		c = c.push(p.name, p.ty)
+		binders += fmt.Sprintf(" (v_%s : %s)", p.name, p.ty.coq())
+	}
+	s.curRecv, s.curMut, s.curRes, s.curState = nil, false, g.results, nil
+	if g.recv != nil && g.recv.ty.k == "ptr" {
+		s.curRecv = g.recv
+		s.curMut = g.mutates
+	}
+	resTypes := []string{}
+	if s.curMut {
+		resTypes = append(resTypes, g.recv.ty.coq())
+	}
+	for _, r := range g.results {
+		resTypes = append(resTypes, r.coq())
+	}
+	src := "(* " + g.pkg + "\n" + gapCommentSafe(gapSource(s.p, g.fd)) + " *)\n"
+	if g.pureFun {
+		r := g.fd.Body.List[0].(*ast.ReturnStmt)
+		body, _ := s.funcLit(r.Results[0].(*ast.FuncLit), c)
+		return fmt.Sprintf("%sDefinition %s%s : %s :=\n%s.\n", src, g.coq, binders, g.results[0].coq(), gapIndent(body))
+	}
+	body := s.stmts(g.fd.Body.List, c, func(gctEnv) string {
+		if len(g.results) > 0 {
+			s.fail(g.fd, "the function does not end in return")
+			return "Panic"
+		}
+		if s.curMut {
+			return "Ok v_" + g.recv.name
+		}
+		return "Ok tt"
+	})
+	return fmt.Sprintf("%sDefinition %s%s : outcome %s :=\n%s.\n", src, g.coq, binders, gapTypeTuple(resTypes), gapIndent(body))
+}
+
+const gctPreamble = `(* GENERATED by tools/qf2coq (evalctx.go) from config/eval/context.go, config/eval/config.go and function/*.go of
+   tobgu/qframe — do not edit.  The evaluation context (the tables of functions by type and argument count,
+   NewDefaultCtx, Context.GetFunc, Context.setFunc, Context.SetFunc, NewConfig, EvalContext) and the functions of the
+   function package that are not arithmetic.  One Record gct_<T> per struct, Inductive gct_dyn for interface{} (nil,
+   one constructor per function type that SetFunc's type switch names or that a stored function has, other), one
+   definition gct_<Receiver>_<function> per Go function of config/eval and gct_function_<name> per function of the
+   function package; the scheme is described at the top of tools/qf2coq/evalctx.go.
+   F64 = float64 (abstract), OTHER = a value of an unlisted dynamic type, E = error values.  A map is option (list
+   (K * V)) (None = the nil map), *T is option gct_T, a function value func(A) B is A -> outcome B, a method that
+   stores through its pointer receiver answers the new receiver first.  The section variables are the vocabulary:
+   strings_CheckName, err_New, err_Propagate, strconv_Itoa, strconv_FormatBool, fmt_Sprintf_f, f64_to_int,
+   int_to_f64, go_strings_ToUpper / ToLower and one variable function_<X> / math_Abs per stored function that is not
+   translated here.  Every function answers outcome T (Panic = Go panic); there is no fuel. *)
+From QF Require Import Base.Prelude.
+Local Open Scope Z_scope.
+
+(* *p, x == nil *)
+Definition gct_deref {T : Type} (p : option T) : outcome T :=
+  match p with Some v => Ok v | None => Panic end.
+Definition gct_isnil {T : Type} (p : option T) : bool := match p with None => true | Some _ => false end.
+(* map[K]V: None the nil map; v, ok := m[k]; m[k] = v (Panic on the nil map; an existing key keeps its place) *)
+Definition gct_map (K V : Type) : Type := option (list (K * V)).
+Fixpoint gct_assoc {K V : Type} (eqb : K -> K -> bool) (l : list (K * V)) (k : K) : option V :=
+  match l with
+  | [] => None
+  | (k', v) :: r => if eqb k' k then Some v else gct_assoc eqb r k
+  end.
+Definition gct_mget {K V : Type} (eqb : K -> K -> bool) (zero : V) (m : gct_map K V) (k : K) : V * bool :=
+  match m with
+  | None => (zero, false)
+  | Some l => match gct_assoc eqb l k with Some v => (v, true) | None => (zero, false) end
+  end.
+Fixpoint gct_assoc_set {K V : Type} (eqb : K -> K -> bool) (l : list (K * V)) (k : K) (v : V) : list (K * V) :=
+  match l with
+  | [] => [(k, v)]
+  | (k', v') :: r => if eqb k' k then (k', v) :: r else (k', v') :: gct_assoc_set eqb r k v
+  end.
+Definition gct_mset {K V : Type} (eqb : K -> K -> bool) (m : gct_map K V) (k : K) (v : V) : outcome (gct_map K V) :=
+  match m with
+  | None => Panic
+  | Some l => Ok (Some (gct_assoc_set eqb l k v))
+  end.
+(* for _, f := range ff { f(&v) } *)
+Fixpoint gct_apply_all {T : Type} (ff : list (T -> outcome T)) (v : T) : outcome T :=
+  match ff with
+  | [] => Ok v
+  | f :: r => do v' <- f v; gct_apply_all r v'
+  end.
+
+`
+
+const gctVocabulary = `Section GenEvalCtx.
+Context {F64 OTHER E : Type}.
+Variable strings_CheckName : bytes -> option E.              (* qfstrings.CheckName(name) *)
+Variable err_New : bytes -> bytes -> E.                      (* qerrors.New(operation, format, ...) *)
+Variable err_Propagate : bytes -> option E -> E.             (* qerrors.Propagate(operation, err) *)
+Variable strconv_Itoa : Z -> bytes.                          (* strconv.Itoa *)
+Variable strconv_FormatBool : bool -> bytes.                 (* strconv.FormatBool *)
+Variable fmt_Sprintf_f : F64 -> bytes.                       (* fmt.Sprintf("%f", x) *)
+Variable f64_to_int : F64 -> Z.                              (* int(x) *)
+Variable int_to_f64 : Z -> F64.                              (* float64(x) *)
+Variable go_strings_ToUpper go_strings_ToLower : bytes -> outcome bytes.  (* strings.ToUpper, strings.ToLower as values *)
+`
+
+// the functions of config/eval in dependency order, and of the function package
+var gctEvalSpecs = []string{"ArgCount.String", "NewDefaultCtx", "Context.GetFunc", "Context.setFunc", "Context.SetFunc", "NewConfig", "EvalContext"}
+var gctFunctionSpecs = []string{"nilSafe", "var UpperS", "var LowerS", "StrS", "LenS", "ConcatS", "StrI", "FloatI", "StrF", "IntF", "StrB"}
+
+func genEvalCtx() string {
+	gct = &gctState{structs: map[string]*gctStruct{}, named: map[string]*gctT{}, fns: map[string]*gctFn{},
+		dynTy: map[string]*gctT{}, varTy: map[string]string{}, fnVals: map[string]*gctT{}, fnDone: map[string]bool{}}
+	gctConsts = map[string]string{}
+	gctConstOrder = nil
+	s := gct
+	ep := loadPkg("config/eval")
+	fp := loadPkg("function")
+	tp := loadPkg("types")
+	if len(ep.files) == 0 || len(fp.files) == 0 || len(tp.files) == 0 {
+		problem("evalctx: config/eval, function or types not found")
+		return ""
+	}
+	gctLoadConsts(ep, "gct_", map[string]bool{"ArgCount": true})
+	gctLoadConsts(tp, "gct_types_", map[string]bool{"FunctionType": true})
+	for _, n := range []string{"gct_ArgCountOne", "gct_ArgCountTwo", "gct_types_FunctionTypeUndefined"} {
+		if _, ok := gctConsts[n]; !ok {
+			problem("evalctx: constant %s not found", n)
+		}
+	}
+
+	// ---- the function package
+	s.p, s.pkgKey = fp, "function"
+	var fnBlocks []string
+	fileOf := func(p *pkgInfo, pos token.Pos) *ast.File {
+		for _, f := range p.files {
+			if f.Pos() <= pos && pos <= f.End() {
+				return f
+			}
+		}
+		return nil
+	}
+	// types of all declared functions (for the ones that stay variables)
+	fnames := []string{}
+	for k := range fp.funcs {
+		fnames = append(fnames, k)
+	}
+	sortStrings(fnames)
+	for _, k := range fnames {
+		fd := fp.funcs[k]
+		if fd.Recv != nil || !ast.IsExported(k) {
+			continue
+		}
+		s.imports = gctImports(fileOf(fp, fd.Pos()))
+		s.curFn = "function." + k
+		save, sf := problems, s.failed
+		ft := s.resolve(fd.Type)
+		if ft.k == "func" {
+			s.fnVals[k] = ft
+		} else {
+			problems, s.failed = save, sf // a function of another shape is a problem only if it is stored
+		}
+	}
+	for _, spec := range gctFunctionSpecs {
+		if strings.HasPrefix(spec, "var ") {
+			name := strings.TrimPrefix(spec, "var ")
+			init, ok := fp.vars[name]
+			if !ok {
+				problem("evalctx: function.%s not found", name)
+				continue
+			}
+			s.curFn = "function." + name
+			s.ntmp = 0
+			var pre []string
+			// find the file for the imports
+			for _, f := range fp.files {
+				if f.Pos() <= init.Pos() && init.Pos() <= f.End() {
+					s.imports = gctImports(f)
+				}
+			}
+			v, vt := s.expr(init, gctEnv{}, &pre, nil)
+			if len(pre) > 0 || vt.k != "func" {
+				s.fail(init, "initialiser of %s", name)
+				continue
+			}
+			s.fnVals[name] = vt
+			s.fnDone[name] = true
+			fnBlocks = append(fnBlocks, fmt.Sprintf("(* BEGIN gct_function_%s *)\n(* function\nvar %s = %s *)\nDefinition gct_function_%s : %s :=\n  %s.\n(* END gct_function_%s *)\n",
+				name, name, gapCommentSafe(s.src(init)), name, vt.coq(), v, name))
+			continue
+		}
+		fd := fp.funcs[spec]
+		if fd == nil {
+			problem("evalctx: function.%s not found", spec)
+			continue
+		}
+		s.imports = gctImports(fileOf(fp, fd.Pos()))
+		s.curFn = "function." + spec
+		g := s.signature("function", spec)
+		if g == nil {
+			continue
+		}
+		s.fns["function."+spec] = g
+		text := s.translate(g)
+		if g.funcType != nil && ast.IsExported(spec) {
+			s.fnVals[spec] = g.funcType
+			s.fnDone[spec] = true
+		}
+		fnBlocks = append(fnBlocks, fmt.Sprintf("(* BEGIN %s *)\n%s(* END %s *)\n", g.coq, text, g.coq))
+	}
+
+	// ---- config/eval
+	s.p, s.pkgKey = ep, "eval"
+	s.imports = map[string]string{}
+	for _, f := range ep.files {
+		for k, v := range gctImports(f) {
+			if old, ok := s.imports[k]; ok && old != v {
+				problem("evalctx: import name %s means two packages", k)
+			}
+			s.imports[k] = v
+		}
+	}
+	s.curFn = "types of config/eval"
+	s.loadTypes()
+	mutating := map[string]bool{}
+	var evalFns []*gctFn
+	for _, key := range gctEvalSpecs {
+		s.curFn = key
+		g := s.signature("eval", key)
+		if g == nil {
+			continue
+		}
+		if g.recv != nil && g.recv.ty.k == "ptr" {
+			g.mutates = gctMutates(g.fd, g.recv.name, mutating)
+			if g.mutates {
+				mutating[g.fd.Name.Name] = true
+			}
+		}
+		s.fns["eval."+key] = g
+		evalFns = append(evalFns, g)
+	}
+	var evalBlocks []string
+	for _, g := range evalFns {
+		text := s.translate(g)
+		evalBlocks = append(evalBlocks, fmt.Sprintf("(* BEGIN %s *)\n%s(* END %s *)\n", g.coq, text, g.coq))
+	}
+	// every method of Context is accounted for
+	for k := range ep.funcs {
+		if strings.HasPrefix(k, "Context.") && k != "Context.String" {
+			if _, ok := s.fns["eval."+k]; !ok {
+				problem("evalctx: method %s of the context is not in the translation", k)
+			}
+		}
+	}
+
+	// ---- assemble
+	var b strings.Builder
+	b.WriteString(gctPreamble)
+	b.WriteString("(* BEGIN gct_consts *)\n(* config/eval: ArgCount; types: FunctionType (byte constants by iota) *)\n")
+	for _, n := range gctConstOrder {
+		fmt.Fprintf(&b, "Definition %s : Z := %s.\n", n, gctConsts[n])
+	}
+	b.WriteString("(* END gct_consts *)\n\n")
+	b.WriteString(gctVocabulary)
+	for _, v := range s.vars {
+		fmt.Fprintf(&b, "Variable %s : %s.\n", v, s.varTy[v])
+	}
+	b.WriteString("\n(* BEGIN gct_dyn *)\n(* interface{}: the nil interface, the function types named by SetFunc's type switch or stored by NewDefaultCtx\n   (in order of discovery), any other dynamic type *)\nInductive gct_dyn : Type :=\n| gct_dyn_nil\n")
+	for _, d := range s.dyns {
+		fmt.Fprintf(&b, "| %s (x : %s)\n", d, s.dynTy[d].coq())
+	}
+	b.WriteString("| gct_dyn_other (x : OTHER).\n(* END gct_dyn *)\n\n")
+	for _, n := range s.structOrder() {
+		st := s.structs[n]
+		fmt.Fprintf(&b, "(* BEGIN gct_%s *)\n(* config/eval\n%s *)\nRecord gct_%s : Type := gct_mk_%s {", n, gapCommentSafe(st.src), n, n)
+		for i, f := range st.fields {
+			if i > 0 {
+				b.WriteString(";")
+			}
+			fmt.Fprintf(&b, "\n  gct_%s_%s : %s", n, f.name, f.ty.coq())
+		}
+		fmt.Fprintf(&b, " }.\n(* END gct_%s *)\n\n", n)
+	}
+	for _, t := range fnBlocks {
+		b.WriteString(t + "\n")
+	}
+	for _, t := range evalBlocks {
+		b.WriteString(t + "\n")
+	}
+	b.WriteString("End GenEvalCtx.\n")
+	return b.String()
+}
